@@ -251,6 +251,8 @@ func universes(thorough bool) []*universe {
 			p.Spec.AllocateTo = &metallbv1beta1.ServiceAllocation{Namespaces: []string{"ns2"}}
 		})}, // re-targeted
 		{mkPool("a", []string{"10.0.0.1/32", "10.0.0.3/32"}, nil), mkPool("z", []string{"10.0.9.0/31"}, nil)},
+		// two pools with one and the same range: the configuration must be refused as a whole (the previous pools stay in force)
+		{mkPool("a", []string{"10.0.0.0/30"}, nil), mkPool("dup", []string{"10.0.0.0/30"}, nil)},
 	}
 	reVs := []namedVariant{
 		{"auto", mkSvc()},
